@@ -215,10 +215,22 @@ def SL(capacitated=False, pre=False, offset=0.0, first=None, burst=None, pos=Tru
 
 # ---- reneging / baulking ---------------------------------------------------------------------------
 class Jockey(R.Leave):
-    def __init__(self, to):
+    """jockeying router; alternate=True: the answer depends on how often it was asked (like a random tie-break), so
+    asking twice for one renege is observable"""
+
+    def __init__(self, to, alternate=False):
         self.to = to
+        self.alternate = alternate
+        self.calls = 0
+
+    def initialise(self, simulation, node):
+        super().initialise(simulation, node)
+        self.calls = 0
 
     def next_node_for_jockeying(self, ind):
+        self.calls += 1
+        if self.alternate and self.calls % 2 == 0:
+            return self.simulation.nodes[-1]
         return self.simulation.nodes[self.to]
 
 
@@ -233,7 +245,7 @@ def RN(c=1, jockey=False, prio=False, pre=False, first=None, burst=None, sched=F
         return Cfg(net, {"routing": {"Customer": ("nodes", [("prob", [1, 2], [0.0, 1.0]), ("prob", [1, 2], [0.0, 0.0])])}})
     if jockey:
         net = ciw.create_network(arrival_distributions=[arr("a", True, burst), None], service_distributions=[D("s"), D("s2")],
-                                 number_of_servers=[c, 1], routing=R.NetworkRouting(routers=[Jockey(2), R.Leave()]),
+                                 number_of_servers=[c, 1], routing=R.NetworkRouting(routers=[Jockey(2, alternate=(jockey == "alt")), R.Leave()]),
                                  reneging_time_distributions=[D("p"), None], batching_distributions=[batches(first), batches(None)])
         return Cfg(net, {"routing": {"Customer": ("nodes", [("leave",), ("leave",)])}})
     if prio:
@@ -340,20 +352,26 @@ def CCw(nodes=1, prio=False, pre=False, first=None, burst=None, c=1):
 
 # ---- routing ----------------------------------------------------------------------------------------
 class RouteFn:
-    """process-based route function supplied by the harness: picks a route (concrete per path) and logs it"""
+    """process-based route function supplied by the harness: picks a route (concrete per path) and logs it;
+    shared=True: every customer is handed the *same* list object (valid for rule 'any', which does not consume it)"""
 
-    def __init__(self, routes, log):
-        self.routes, self.log = routes, log
+    def __init__(self, routes, log, shared=False):
+        import copy as _copy
+        self.routes, self.log, self.shared = routes, log, shared
+        self.original = _copy.deepcopy(routes)
 
     def __call__(self, ind, simulation):
         k = 0 if len(self.routes) == 1 else E.EX.choose(len(self.routes), "route")
+        if self.shared:
+            self.log[ind.id_number] = [list(x) if isinstance(x, (list, tuple)) else x for x in self.original[k]]
+            return self.routes[k]
         r = self.routes[k]
         self.log[ind.id_number] = [list(x) if isinstance(x, (list, tuple)) else x for x in r]
         return [list(x) if isinstance(x, (list, tuple)) else x for x in r]
 
 
 @config
-def RT(router="prob", tie="random", first=None, burst=None, c=(1, 1, 1), rule="any", choice="random", a23=False):
+def RT(router="prob", tie="random", first=None, burst=None, c=(1, 1, 1), rule="any", choice="random", a23=False, shared=False):
     """3 nodes; node 1 routes with `router`; nodes 2 and 3 leave"""
     ad = [arr("a1", True, burst), arr("a2", True, burst) if a23 else None, None]
     sd = [D("s1"), D("s2"), D("s3")]
@@ -366,7 +384,7 @@ def RT(router="prob", tie="random", first=None, burst=None, c=(1, 1, 1), rule="a
             rt = R.ProcessBased(RouteFn([[1, 2, 3], [1, 3], [1, 1, 2]], log))
             flags["routing"] = {"Customer": ("process",)}
         else:
-            rt = R.FlexibleProcessBased(RouteFn([[[1], [2, 3]], [[1], [2, 3], [2]]], log), rule, choice)
+            rt = R.FlexibleProcessBased(RouteFn([[[1], [2, 3]], [[1], [2, 3], [2]]] if not shared else [[[1], [2, 3], [3]]], log, shared=shared), rule, choice)
             flags["routing"] = {"Customer": ("flex", rule, choice)}
         net = ciw.create_network(arrival_distributions=ad, service_distributions=sd, number_of_servers=list(c), routing=rt,
                                  batching_distributions=bd)
@@ -421,8 +439,14 @@ def JSQP(first=None, burst=None, tie="order", pre="reroute"):
 
 # ---- processor sharing -------------------------------------------------------------------------------
 @config
-def PS(capacity="inf", threshold=1, first=None, burst=None, pos=True, tandem=False):
+def PS(capacity="inf", threshold=1, first=None, burst=None, pos=True, tandem=False, capacity2=None):
     capv = INF if capacity == "inf" else capacity
+    if capacity2 is not None:
+        # PS node feeding a capacity-limited PS node
+        net = ciw.create_network(arrival_distributions=[arr("a", pos, burst), None], service_distributions=[D("req"), D("req2")],
+                                 number_of_servers=[capv, capacity2], ps_thresholds=[threshold, 1], routing=[[0.0, 1.0], [0.0, 0.0]],
+                                 batching_distributions=[batches(first), batches(None)])
+        return Cfg(net, node_class=[MonPSNode, MonPSNode])
     if tandem:
         net = ciw.create_network(arrival_distributions=[arr("a", pos, burst), None], service_distributions=[D("req"), D("s2")],
                                  number_of_servers=[capv, 1], ps_thresholds=[threshold, 1], routing=[[0.0, 1.0], [0.0, 0.0]],
